@@ -649,6 +649,12 @@ def gen(rng, tier):
                 else:
                     c['t'] = -2
                 cases.append(c)
+    # a model WITHOUT periods (kept finding: SolutionError vs IndexError), and spans too short for the lags
+    for n0 in (0, 1):
+        for er in ('raise', 'skip'):
+            cases.append({'kind': 'run', 'keep': True, 'prog': p0, 'script': script_of(p0), 'n': n0, 'entry': 'solve', 'start': None, 'end': None,
+                          'data': {'Y': [lib.fhex(1.0)] * n0, 'X': [lib.fhex(1.0)] * n0, 'a': [lib.fhex(0.5)] * n0},
+                          'opts': dict(min_iter=0, max_iter=10, tol=lib.fhex(TOL), offset=0, failures='raise', errors=er, catch_first_error=True)})
     # two models in one process with the same non-default check list at different rows
     pA, pB = fixed[0], fixed[2]          # Y = {a} * Y[-1] + X  (Y is row 0)   /   Y = C + G ; C = {c1} * Y  (order of NAMES decides)
     for main, other in ((pA, pB), (pB, pA)):
@@ -1584,6 +1590,10 @@ def oracle(case, obs):
     # ---- hypotheses of the statement
     if o['errors'] not in ERRMODES or o['failures'] not in ('raise', 'ignore'):
         return fails                                       # outside the option lattice both engines document
+    if n == 0 and case['entry'] == 'solve':
+        if py['out'][:2] != f['out'][:2]:
+            bad('solve|empty-span|SolutionError-vs-IndexError', 'solve() of a model without periods: Python engine %s, Fortran engine %s' % (py['out'], f['out']))
+        return fails
     ps = positions_of(case, obs)
     if any(not (0 <= p < n) for p in ps) or (case['entry'] != 'solve' and not (-n <= case['t'] < n)):
         return fails                                       # t outside the span
